@@ -26,6 +26,7 @@ func (sc *Scope) call(e ECall) Val {
 		argN(1)
 		o := sc.with(sc.old)
 		o.header, o.phiOver = nil, nil // names denote their values at function entry
+		o.inOld = true
 		return o.eval(e.Args[0])
 	case "len":
 		argN(1)
